@@ -77,6 +77,123 @@ function DUMPARR(a) {
   out[0] = flags;
   return out;
 }
+// ---- spec-oracle ops: builtins that write their result into an array handed back by a custom / species constructor,
+// and index stores whose receiver is not the array ([[Set]] through `super[i] = v`).  Each op runs the builtin and a
+// transliteration of the ECMA-262 algorithm (only CreateDataPropertyOrThrow = defineProperty with a full descriptor,
+// HasProperty = `in`, Get, and `A["length"] = n` through the generic [[Set]]) on equal fresh inputs and returns "same"
+// or "DIFF ..." (a marker the check reports).  The subject is only read.
+function REP(v) {
+  if (typeof v === "number") return Object.is(v, -0) ? "-0" : String(v);
+  if (typeof v === "object" && v !== null) { var i = OBJ.indexOf(v); return i >= 0 ? "o" + i : "obj"; }
+  return typeof v + ":" + String(v);
+}
+function SIG(a) {
+  var keys = Reflect.ownKeys(a), out = [];
+  for (var i = 0; i < keys.length; i++) {
+    var k = keys[i];
+    if (k === "length" || typeof k !== "string") continue;
+    var d = Object.getOwnPropertyDescriptor(a, k);
+    out.push(k + "=" + ("value" in d ? REP(d.value) + (d.writable ? "w" : "-") + (d.enumerable ? "e" : "-") + (d.configurable ? "c" : "-") : "acc"));
+  }
+  return String(a.length) + "[" + out.join(",") + "]";
+}
+function COPY(o) {            // a fresh ordinary array with the subject's elements (holes kept), length <= 12
+  var n = Math.min(o.length >>> 0, 12), c = [];
+  for (var i = 0; i < n; i++) if (i in o) c[i] = o[i];
+  c[LENGTH_KEY] = n;
+  return c;
+}
+function PREFILLED(kind) { return kind ? [91, , 93, 94, , 96, 97, 98] : [91, 92, 93, 94, 95, 96, 97, 98]; }
+function CDP(A, k, v) { Object.defineProperty(A, k, {value: v, writable: true, enumerable: true, configurable: true}); }
+function SETLEN(A, n) { A[LENGTH_KEY] = n; }
+function CMP(tag, got, want) { var g = SIG(got), w = SIG(want); return g === w ? "same" : "DIFF " + tag + " builtin=" + g + " spec=" + w; }
+function WITHSPECIES(c, kind) { c.constructor = {}; c.constructor[Symbol.species] = function () { return PREFILLED(kind); }; return c; }
+var XS = {
+  ofctor: function (o, kind) {
+    var c = COPY(o), items = [];
+    for (var i = 0; i < Math.min(c.length, 3); i++) items.push(c[i]);
+    var got = Array.of.apply(function () { return PREFILLED(kind); }, items);
+    var A = PREFILLED(kind);
+    for (var k = 0; k < items.length; k++) CDP(A, k, items[k]);
+    SETLEN(A, items.length);
+    return CMP("Array.of", got, A);
+  },
+  fromctor: function (o, kind) {
+    var c = COPY(o);
+    var got = Array.from.call(function () { return PREFILLED(kind); }, c);
+    var A = PREFILLED(kind), k = 0;
+    for (; k < c.length; k++) CDP(A, k, c[k]);
+    SETLEN(A, k);
+    var like = {length: c.length};
+    for (var i = 0; i < c.length; i++) if (i in c) like[i] = c[i];
+    var got2 = Array.from.call(function () { return PREFILLED(kind); }, like);
+    var B = PREFILLED(kind);
+    for (k = 0; k < c.length; k++) CDP(B, k, like[k]);
+    SETLEN(B, c.length);
+    var r = CMP("Array.from(iterable)", got, A);
+    return r === "same" ? CMP("Array.from(array-like)", got2, B) : r;
+  },
+  speciesSlice: function (o, kind) {
+    var c = WITHSPECIES(COPY(o), kind), len = c.length, k = Math.min(1, len), fin = Math.min(3, len);
+    var got = AP.slice.call(c, 1, 3);
+    var A = PREFILLED(kind), n = 0;
+    for (; k < fin; k++, n++) if (k in c) CDP(A, n, c[k]);
+    SETLEN(A, n);
+    return CMP("slice", got, A);
+  },
+  speciesSplice: function (o, kind) {
+    var c = WITHSPECIES(COPY(o), kind), d = COPY(o), len = c.length, start = Math.min(1, len), adc = Math.min(2, len - start);
+    var got = AP.splice.call(c, 1, 2);
+    var A = PREFILLED(kind);
+    for (var k = 0; k < adc; k++) if ((start + k) in d) CDP(A, k, d[start + k]);
+    SETLEN(A, adc);
+    return CMP("splice", got, A);
+  },
+  speciesConcat: function (o, kind) {
+    var c = WITHSPECIES(COPY(o), kind), extra = [7, , 8];
+    var got = AP.concat.call(c, extra, 5);
+    var A = PREFILLED(kind), n = 0, parts = [c, extra];
+    for (var p = 0; p < parts.length; p++) { var E = parts[p]; for (var k = 0; k < E.length; k++, n++) if (k in E) CDP(A, n, E[k]); }
+    CDP(A, n, 5); n++;
+    SETLEN(A, n);
+    return CMP("concat", got, A);
+  },
+  speciesMap: function (o, kind) {
+    var c = WITHSPECIES(COPY(o), kind);
+    var got = AP.map.call(c, function (v, i) { return i; });
+    var A = PREFILLED(kind);
+    for (var k = 0; k < c.length; k++) if (k in c) CDP(A, k, k);
+    return CMP("map", got, A);
+  },
+  speciesFilter: function (o, kind) {
+    var c = WITHSPECIES(COPY(o), kind);
+    var got = AP.filter.call(c, function (v, i) { return i % 2 === 0; });
+    var A = PREFILLED(kind), to = 0;
+    for (var k = 0; k < c.length; k++) if (k in c && k % 2 === 0) CDP(A, to++, c[k]);
+    return CMP("filter", got, A);
+  },
+  superset: function (o, i, v) {
+    // `super[i] = v`: [[Set]] on the home object's prototype (an array) with receiver `this` (a plain object):
+    // the prototype array must stay as it is, the element is created on the receiver
+    var proto = COPY(o), before = SIG(proto);
+    var home = Object.setPrototypeOf({ m(k, x) { super[k] = x; } }, proto);
+    var t = {};
+    home.m.call(t, i, v);
+    var after = SIG(proto);
+    if (after !== before) return "DIFF super[i]=v changed the prototype array: " + before + " -> " + after;
+    var d = Object.getOwnPropertyDescriptor(t, i);
+    if (!d || !("value" in d) || !Object.is(d.value, v) || !d.writable || !d.enumerable || !d.configurable) return "DIFF super[i]=v did not create the element on the receiver";
+    var t2 = {};
+    if (!Reflect.set(proto, i, v, t2) || SIG(proto) !== before || !Object.is(t2[i], v)) return "DIFF Reflect.set with another receiver";
+    return "same";
+  },
+  superget: function (o, i) {
+    var proto = COPY(o);
+    var home = Object.setPrototypeOf({ m(k) { return super[k]; } }, proto);
+    var got = home.m.call({}, i), want = Reflect.get(proto, i, {});
+    return Object.is(got, want) ? "same" : "DIFF super[i] read";
+  },
+};
 function cb(tag, ret) { return function (v, i, o) { LOG.push([tag, i, v]); return ret(v, i); }; }
 var X = {
   sort: function (o) { return AP.sort.call(o); },
@@ -113,6 +230,7 @@ var X = {
   hasOwn: function (o, k) { return [Object.prototype.hasOwnProperty.call(o, k), k in o, Object.prototype.propertyIsEnumerable.call(o, k)]; },
   isFrozen: function (o) { return [Object.isFrozen(o), Object.isSealed(o), Object.isExtensible(o)]; },
 };
+for (var XK in XS) X[XK] = XS[XK];
 "#;
 
 struct Env {
